@@ -10,6 +10,7 @@ PROP = {
             "the retention bound is not required while a directory listing or a deletion failed (injected) until the next file creation; the roll rule is only evaluated between two successful batches with no restart or failed attempt in between",
             "the value of the counter field is not constrained (only its grammar); the ordering claim is checked between files the set itself created while no clock reading went backwards, and only among files that still exist; the listed known finding is recognised only when the two NAMES carry the same period and the same millisecond counter AND some reading of either creating batch falls into one common millisecond (on the current tree the two conditions coincide; a name tie without a clock tie is a separate signature)",
             "when the readings taken during one on_batch straddle a period boundary, both keeping the current file and rolling are accepted (the statement does not say which reading decides)",
+            "after every successful batch the file that received its writes must still be a member of the directory and must not have been deleted by that batch's own retention; the generator reaches full sets in which the new file sorts below existing members (backward clock steps, pre-existing future-dated members, max_files 1-3)",
             "max_files = 0 is outside the statement and not generated",
         ],
         "lanes": [
